@@ -21,6 +21,7 @@ type Up struct {
 // Op is one step of a scripted target: a message it sends, or something it does to its stream.
 type Op struct {
 	// Kind: update delete sync multi - atomic group fill - break await wait
+	// (a break with Via "silence" is the target going quiet until the collector's receive timeout ends the stream)
 	Kind    string    `json:"kind"`
 	Origin  string    `json:"origin,omitempty"` // prefix origin ("" = none: the collector files it under "openconfig")
 	Prefix  []gn.Elem `json:"prefix,omitempty"`
@@ -36,13 +37,18 @@ type Op struct {
 	N   int `json:"n,omitempty"`
 	Ver int `json:"ver,omitempty"`
 	// break: the target's stream ends - Via "error" (the RPC returns a status), "conn" (the transport is closed),
-	// "rpc" (the collector is asked to reconnect through its Collector service). When the collector subscribes
-	// again the target first reports its current state, then a sync_response, then goes on with the script.
-	// LoseMod>0: the units (leaves, containers) whose rank in key order is LoseRem modulo LoseMod are gone when it comes back.
+	// "rpc" (the collector is asked to reconnect through its Collector service), "silence" (the target - configured
+	// with a receive timeout - sends nothing, heartbeats included, until the collector itself gives the stream up).
+	// When the collector subscribes again the target first reports its current state, then a sync_response, then goes
+	// on with the script.
+	// LoseMod>0: the units (leaves, containers) whose rank in key order is LoseRem modulo LoseMod are gone when it comes back
+	// (whatever ended the stream: the state reported on the NEW stream is what counts).
+	// Code (Via "error"): the status the RPC ends with - unavailable (default) canceled internal deadline eof (= the handler returns nil).
 	Via     string `json:"via,omitempty"`
+	Code    string `json:"code,omitempty"`
 	LoseMod int    `json:"lose_mod,omitempty"`
 	LoseRem int    `json:"lose_rem,omitempty"`
-	// await: the script goes on when observer Obs reached Event (start dialed first sync pause tick), or after a bounded wait
+	// await: the script goes on when observer Obs reached Event (start dialed first sync pause tick resub), or after a bounded wait
 	Obs   int    `json:"obs,omitempty"`
 	Event string `json:"event,omitempty"`
 }
@@ -53,6 +59,16 @@ type Target struct {
 	Server  int    `json:"server"`  // which scripted server address it lives on
 	Request int    `json:"request"` // which request of the configuration it references
 	Ops     []Op   `json:"ops"`
+	// RecvTimeoutMs>0: the target is configured with meta receive_timeout; the scripted target then sends a heartbeat
+	// (a leaf outside every view) every tenth of it on every stream, except while a "silence" break lasts.
+	RecvTimeoutMs int `json:"recv_timeout_ms,omitempty"`
+}
+
+// QPath is one path of a client query: Path is what goes into client.Query.Queries (an element is a plain
+// string - '/' allowed - or name[key=value]...), Index is the same path in index form (names and key values).
+type QPath struct {
+	Path  []string `json:"path"`
+	Index []string `json:"index"`
 }
 
 // Pause makes an observer a slow consumer for a while. Script positions count the ops a target has STARTED.
@@ -70,6 +86,25 @@ type Observer struct {
 	DelayUs int     `json:"delay_us,omitempty"` // plus this long
 	Slow    bool    `json:"slow,omitempty"`     // static 64KB HTTP/2 windows: a handler that blocks stops the sender after a bounded amount of data
 	Pauses  []Pause `json:"pauses,omitempty"`
+	// Queries (none: everything, "*"): the paths of its client.Query.Queries; the harness adds the path of the sentinel.
+	Queries []QPath `json:"queries,omitempty"`
+	// OnceFirst: the SAME client.Query value is first used for a ONCE subscription (view not judged: the scripts are
+	// playing), then - with Type changed, its Queries shared - for the STREAM subscription that is judged.
+	OnceFirst bool `json:"once_first,omitempty"`
+	// Reconnect: the observer is a client.ReconnectClient around the cache client (its cache is cleared in the reset
+	// callback, which is what the callback is for). Cuts: its transport to the COLLECTOR is closed once the clock
+	// target started that many ops (and the current subscription has received something); the library subscribes
+	// again with the same Query value.
+	Reconnect bool  `json:"reconnect,omitempty"`
+	Cuts      []int `json:"cuts,omitempty"`
+}
+
+// Reuse is a sequence of subscriptions made after quiescence with ONE client.Query value (Type changed in
+// between, Queries shared): every view must equal the part of the targets' final state the paths address.
+type Reuse struct {
+	Scope   int      `json:"scope"` // index of the target; -1: "*"
+	Queries []QPath  `json:"queries"`
+	Modes   []string `json:"modes"` // once | stream
 }
 
 // Scenario is a collector configuration plus the streams of its targets.
@@ -79,9 +114,15 @@ type Scenario struct {
 	Requests  int        `json:"requests"`
 	Subtree   int        `json:"subtree"` // CLI: which leaf's top-level subtree is queried besides the whole target
 	Observers []Observer `json:"observers,omitempty"`
+	Reuse     []Reuse    `json:"reuse,omitempty"`
 }
 
-var names = []string{"a", "b", "c", "iface", "state"}
+// Element names and key values: mostly plain, some containing '/' (interface names, prefixes; a leading and a
+// trailing one) - a path element is an opaque string to everything but the client's string form of a query.
+var (
+	names   = []string{"a", "b", "c", "iface", "state", "a", "b", "a/b", "/r", "t/"}
+	keyVals = []string{"eth0", "eth1", "7", "eth1/1", "10.0.0.0/8", "x/"}
+)
 
 func genElem(t *rapid.T, glob bool) gn.Elem {
 	alpha := names
@@ -92,7 +133,7 @@ func genElem(t *rapid.T, glob bool) gn.Elem {
 	if e.Name != "*" && rapid.IntRange(0, 3).Draw(t, "keyed") == 0 {
 		e.Keys = map[string]string{}
 		for i := rapid.IntRange(1, 2).Draw(t, "nkeys"); i > 0; i-- {
-			e.Keys[rapid.SampledFrom([]string{"name", "id"}).Draw(t, "key")] = rapid.SampledFrom([]string{"eth0", "eth1", "7"}).Draw(t, "kval")
+			e.Keys[rapid.SampledFrom([]string{"name", "id"}).Draw(t, "key")] = rapid.SampledFrom(keyVals).Draw(t, "kval")
 		}
 	}
 	return e
